@@ -147,12 +147,19 @@ def Param.save (p : PState) (withStats : Bool) : Option Bytes :=
   | none => none
   | some p => if saveInnerFits p withStats then some (writeHeader .parameter ++ saveInner p withStats) else none
 
-/-- `Parameter::load` of a readable file: error (if any) and the object afterwards.
-Bytes after the record are not looked at. -/
-def Param.load (old : PState) (file : Bytes) (withStats : Bool) (dev : Dev) : Option DErr × PState :=
-  match (readHeader .parameter file).bind fun _ r => loadInner r withStats dev with
+/-- everything `Parameter::load` reads before the commit: header, then `load_inner` -/
+def Param.parse (file : Bytes) (withStats : Bool) (dev : Dev) : Res Param :=
+  (readHeader .parameter file).bind fun _ r => loadInner r withStats dev
+
+/-- the commit at the end of `load_inner` ("Loading succeeded. Move all data to `this`"),
+or the exception that leaves `this` untouched.  Bytes after the record are not looked at. -/
+def commitParam (old : PState) : Res Param → Option DErr × PState
   | .ok p _ => (none, some p)
   | .error e => (some e, old)
+
+/-- `Parameter::load` of a readable file: error (if any) and the object afterwards. -/
+def Param.load (old : PState) (file : Bytes) (withStats : Bool) (dev : Dev) : Option DErr × PState :=
+  commitParam old (Param.parse file withStats dev)
 
 /-! ### Model: `get_all_parameters()` is a map path ↦ Parameter -/
 
@@ -214,11 +221,17 @@ def loadEntries (withStats : Bool) (dev : Dev) : Nat → Bytes → MState → Op
         | .error e => (some e, st)
         | .ok p r' => loadEntries withStats dev n r' (setParam st key p)
 
-/-- `Model::load` of a readable file -/
-def Model.load (old : MState) (file : Bytes) (withStats : Bool) (dev : Dev) : Option DErr × MState :=
-  match (readHeader .model file).bind fun _ r => nat32.dec r with
+/-- header and `reader >> num_params` -/
+def Model.parseCount (file : Bytes) : Res Nat :=
+  (readHeader .model file).bind fun _ r => nat32.dec r
+
+def Model.loadFrom (old : MState) (withStats : Bool) (dev : Dev) : Res Nat → Option DErr × MState
   | .error e => (some e, old)
   | .ok n r => loadEntries withStats dev n r old
+
+/-- `Model::load` of a readable file -/
+def Model.load (old : MState) (file : Bytes) (withStats : Bool) (dev : Dev) : Option DErr × MState :=
+  Model.loadFrom old withStats dev (Model.parseCount file)
 
 /-! ### Optimizer -/
 
@@ -317,12 +330,18 @@ def Opt.setConfigs (o : Opt) (uc fc : List (Bytes × UInt32)) : Opt :=
 def Opt.save (o : Opt) : Bytes :=
   writeHeader .optimizer ++ uintMapC.enc o.uintConfigs ++ floatMapC.enc o.floatConfigs
 
-/-- `Optimizer::load` of a readable file: both maps are parsed before `set_configs` -/
-def Opt.load (old : Opt) (file : Bytes) : Option DErr × Opt :=
-  match (readHeader .optimizer file).bind fun _ r => (uintMapC.dec r).bind fun uc r' =>
-      (floatMapC.dec r').bind fun fc r'' => .ok (uc, fc) r'' with
-  | .ok (uc, fc) _ => (none, old.setConfigs uc fc)
+/-- header and `reader >> uint_configs >> float_configs` -/
+def Opt.parse (file : Bytes) : Res (List (Bytes × UInt32) × List (Bytes × UInt32)) :=
+  (readHeader .optimizer file).bind fun _ r => (uintMapC.dec r).bind fun uc r' =>
+    (floatMapC.dec r').bind fun fc r'' => .ok (uc, fc) r''
+
+/-- `set_configs` after both maps were read, or the exception before it -/
+def commitOpt (old : Opt) : Res (List (Bytes × UInt32) × List (Bytes × UInt32)) → Option DErr × Opt
+  | .ok cfg _ => (none, old.setConfigs cfg.1 cfg.2)
   | .error e => (some e, old)
+
+/-- `Optimizer::load` of a readable file -/
+def Opt.load (old : Opt) (file : Bytes) : Option DErr × Opt := commitOpt old (Opt.parse file)
 
 /-! ### Writing to a file that may fail -/
 
